@@ -5,7 +5,7 @@ from mc.env import dask, pd, np
 from mc.structkey import ekey
 
 ID = "C17"
-KINDS = ["persist", "persist_nofuse", "delayed", "delayed_nodiv", "legacy"]
+KINDS = ["persist", "persist_nofuse", "delayed", "delayed_prefix", "delayed_nodiv", "legacy"]
 
 
 def cut(x, kind):
@@ -24,6 +24,10 @@ def cut(x, kind):
         # verify_meta=False: dtype *flavours* of the declared schema (str vs pyarrow string, int vs
         # float after missing values) are C07's subject, not this property's
         return dx.from_delayed(x.to_delayed(), meta=x._meta, divisions=divs, verify_meta=False)
+    if kind == "delayed_prefix":
+        o = x.optimize()
+        divs = o.divisions if o.known_divisions else None
+        return dx.from_delayed(x.to_delayed(), meta=x._meta, divisions=divs, verify_meta=False, prefix="stage1")
     if kind == "delayed_nodiv":
         return dx.from_delayed(x.to_delayed(), meta=x._meta, verify_meta=False)
     if kind == "legacy":
